@@ -88,7 +88,40 @@ def circular_failing_cases(rng, n):
                              np_seed=rng.randint(0, 10 ** 6)), op="circ_resolve", pre_ops=())
 
 
+def nested_restriction_cases(rng, n):
+    """one nucleotide frozen strictly inside a codon of a coding region (a restriction nested in a longer one), the codon
+    itself forbidden as a pattern, and a pair of constraints that cannot both hold: the solve fails after local
+    successes, and the frozen nucleotide must still be there"""
+    six = {"S": ["TCA", "TCC", "TCG", "TCT", "AGC", "AGT"], "L": ["CTA", "CTC", "CTG", "CTT", "TTA", "TTG"],
+           "R": ["CGA", "CGC", "CGG", "CGT", "AGA", "AGG"]}
+    for _ in range(n):
+        m = rng.randint(3, 5)
+        cods = [rng.choice(six[rng.choice("SLR")]) for _ in range(m)]
+        seq = "".join(cods)
+        j = rng.randint(0, m - 1)
+        pos = 3 * j + rng.choice([1, 1, 0, 2])
+        cons = [dict(kind="cds", location=[0, 3 * m, 1], table="Standard", start_codon=None, translation=None),
+                dict(kind="keep", location=[pos, pos + 1, 1]),
+                dict(kind="pattern", pattern=cods[j], location=None)]
+        if rng.random() < 0.5:
+            # a serine codon TCN whose middle C is frozen, with "TC" forbidden on the codon: the only synonyms avoiding it
+            # (AGC / AGT) would change the frozen nucleotide, so no solution exists and the codon must stay as it is
+            cods[j] = rng.choice(six["S"][:4])
+            seq = "".join(cods)
+            pos = 3 * j + 1
+            cons = [dict(kind="cds", location=[0, 3 * m, 1], table="Standard", start_codon=None, translation=None),
+                    dict(kind="keep", location=[pos, pos + 1, 1]),
+                    dict(kind="pattern", pattern="TC", location=[3 * j, 3 * j + 3, 1])]
+        elif rng.random() < 0.7:
+            cons += [dict(kind="gcwin", mini=0.9, maxi=1.0, window=3 * m, location=None)]     # cannot hold: the solve fails
+        rng.shuffle(cons)
+        yield dict(desc=dict(sequence=seq, constraints=cons, objectives=[], settings=problems.rand_settings(rng),
+                             np_seed=rng.randint(0, 10 ** 6)), op=rng.choice(["resolve", "resolve", "exh_resolve"]), pre_ops=())
+
+
 def base_cases(rng, n):
+    for c in nested_restriction_cases(rng, max(6, n // 6)):
+        yield c
     for c in failing_direct_cases(rng, max(6, n // 5)):
         yield c
     for c in circular_failing_cases(rng, max(6, n // 5)):
@@ -124,7 +157,8 @@ def oracle(results, out):
         seq0 = case["desc"]["sequence"].upper()
         if len(p.sequence) != len(seq0):
             out.append(dict(kind="length-changed-after-failure", input=inp, detail=p.sequence))
-        if not solverprops.in_space(p):
+        if not solverprops.in_space(p) or (not case["desc"].get("circular") and not case["op"].startswith("circ")
+                                            and not solverprops.restrictions_respected(p, case["desc"]["sequence"].upper())):
             out.append(dict(kind="hard-restriction-broken-after-failure", input=inp, detail=p.sequence))
         if len(p.constraints) != len(case["desc"]["constraints"]) or len(p.objectives) != len(case["desc"].get("objectives", [])):
             out.append(dict(kind="specifications-lost-after-failure", input=inp,
